@@ -37,6 +37,13 @@ THEOREMS = ["PyOak.C04." + t for t in ['deser_reuse', 'deser_reuse_all', 'deserK
     'dec_enc_fset_perm', 'basic_unions_rt', 'enum_before_int_fails', 'int_before_enum_fails', 'path_before_str_fails',
     'str_before_path_leaks', 'str_last_enum_leaks', 'str_first_enum_ok', 'literal_int_bool_fails', 'enum_before_bool_fails',
     'nested_fails', 'illtyped_bool_in_int', 'encNode_keys', 'encNode_postNode']]
+# Props/C04Ser.lean, C04RoundTrip.lean, C04Reach.lean (AUDIT.md top-10 #1): serializer `RState.serOf` on the registry
+# machine (Model/RegistrySer.lean, a conservative extension) and the end-to-end `deser (ser u)` statements
+THEOREMS += ["PyOak.C04." + t for t in [
+    'roundtrip_alive', 'roundtrip_registered', 'roundtrip_alive_step', 'deserAux_keys', 'clash_free', 'noClash_of_acyclic',
+    'deser_persist_acyclic', 'acyclic_serOf', 'idInj_of_live', 'roundtrip_fresh', 'Good.new', 'image_inj', 'roundtrip_iso',
+    'roundtrip_fresh_process', 'deser_total', 'covered_heap', 'live_in_heap', 'wf_step', 'wf_run',
+    'roundtrip_alive_history', 'roundtrip_fresh_history']]
 RULE = ("zoo trees (all property kinds incl. unicode strings, 64-bit ints, floats, enums, paths, literals, tuples, "
         "optionals; every origin kind incl. XML, generated, multi-origins over several sources, No* singletons; shared "
         "subtrees; ids with collision suffixes because registered twins exist outside the tree) x 4 formats x "
